@@ -153,7 +153,7 @@ def _sub_main():
 
 class C08(object):
     prop = "C08"
-    RUNS = {"quick": 420, "thorough": 9000}
+    RUNS = {"quick": 900, "thorough": 12000}
     BUDGET_S = {"quick": 75, "thorough": 560}
     K = {"quick": 6, "thorough": 16}
     RULE = ("one scenario seed fixes an acyclic definition and a per-task outcome table; K schedule seeds (quick 6, thorough 16) permute "
